@@ -108,3 +108,10 @@ Theorem C06_every_entry_of_masks_goes_through_apply_to_mask : forall fi fm fb fk
   dual_target fi fm fb fk fd "masks" (VList l) = VList (map fm l).
 Proof. intros. apply masks_entrywise. Qed.
 Print Assumptions C06_every_entry_of_masks_goes_through_apply_to_mask.
+
+(* fill values stay on their side: no mask path (apply_to_mask) and no sampled parameter that names the mask reads an
+   image fill attribute (value, fill_value, pad_cval, drop_value, cval), and no image path / image parameter reads a
+   mask fill attribute -- over the regenerated table of attribute reads of every transform class *)
+Theorem C06_mask_fill_comes_from_the_mask_fill_argument : forallb fill_row_ok fill_table = true.
+Proof. exact fills_stay_on_their_side. Qed.
+Print Assumptions C06_mask_fill_comes_from_the_mask_fill_argument.
